@@ -18,10 +18,13 @@ DIRECTIVES = (AS_SET, AS_MAP, LAST_APPLIED)
 OWNER_REFS = "ownerReferences"
 LA_ANNOTATION = "koreo.dev/last-applied-configuration"
 
-KEYS = ["a", "b", "c", "d", "e", "spec", "items", "x y", "é", "k1", "k2", "data"]
+KEYS = ["a", "b", "c", "d", "e", "spec", "items", "x y", "é", "k1", "k2", "data",
+        # field names the API server uses in `metadata` are ordinary field names anywhere else
+        # (spec.claimRef.uid, involvedObject.resourceVersion, a CRD field called `generation`, ...)
+        "uid", "generation", "resourceVersion", "creationTimestamp", "selfLink", "managedFields"]
 STRS = ["", "a", "b", " a ", "1", "0", "True", "None", "x$y", "é", "it's", "long-ish value"]
-INTS = [0, 1, -1, 2, 7, 80, 443, 2 ** 40]
-FLTS = [0.0, 1.0, 1.5, -2.25, 0.125, 80.0]
+INTS = [0, 1, -1, 2, 7, 80, 443, 2 ** 40, 2147483648, 1700000000123]
+FLTS = [0.0, 1.0, 1.5, -2.25, 0.125, 80.0, 2.0 ** 33 + 0.5]
 FIELD_SETS = [["name"], ["name", "port"], ["id"], ["name", ""]]
 NAMES = ["a", "b", "c", "web", "db", " a", "1", "x$y", "z"]
 
@@ -376,7 +379,9 @@ def meets(mode: str, t, live, la=None) -> bool:
 # --------------------------------------------------------------------------- decoration
 
 BOOKKEEPING = {"resourceVersion": "12", "uid": "u-1", "generation": 3, "creationTimestamp": "2026-01-01T00:00:00Z",
-               "managedFields": [{"manager": "x", "operation": "Update"}], "finalizers": ["f"]}
+               "managedFields": [{"manager": "x", "operation": "Update"}], "finalizers": ["f"],
+               # an object held by a finalizer while it is being deleted is still there to be compared
+               "deletionTimestamp": "2026-01-02T00:00:00Z", "deletionGracePeriodSeconds": 0}
 
 
 def fresh_key(r, taken):
@@ -545,6 +550,10 @@ DELETE = object()
 
 
 def other_scalar(r, v):
+    # a large number that is off by the smallest step: relative deviation far below 1e-9
+    if isinstance(v, (int, float)) and not isinstance(v, bool) and abs(v) >= 2 ** 30 and r.random() < 0.6:
+        step = 1 if isinstance(v, int) else 0.125
+        return v + r.choice([step, -step])
     for _ in range(30):
         w = gen_scalar(r)
         if not scalar_eq(v, w) and type(w) is type(v):
